@@ -19,6 +19,7 @@ from ..core import RunResult, Violation
 PROP = "C14"
 TOL = 1e-9
 TOL_BOOT = 1e-6
+TOL_BOOT_DASK = 1e-3
 
 
 
@@ -321,6 +322,14 @@ def execute(cfg: dict, *, stop_at_first=True, trace=False) -> RunResult:
                 obj, key = st["b"], ("b", st["b_fit"])
                 rm, renv, rout, _ = refs.boot(st["b_fit"])
                 tol = TOL_BOOT
+                if cfg.get("dask_eager"):
+                    # members of a dask-backed model come out of dask's randomised solver, which the bootstrapper's inner
+                    # EOF leaves unseeded: reproducible "to solver accuracy" only (C20) - measured 1.3e-5 on components
+                    # (soak seed 6). Only the members' explained variance is compared there, at 1e-3: what the faults
+                    # aim at (members lost, duplicated, drawn from another stream) is of order one
+                    if q.get("name") != "explained_variance":
+                        continue
+                    tol = TOL_BOOT_DASK
             if not rout.ok:
                 return  # reference could not be built; the fit op has already been judged
             sim.op = f"{op['id']}q"
